@@ -22,6 +22,8 @@ import (
 	mstypes "github.com/KiraCore/sekai/x/multistaking/types"
 	slashingtypes "github.com/KiraCore/sekai/x/slashing/types"
 	tokenstypes "github.com/KiraCore/sekai/x/tokens/types"
+	abci "github.com/cometbft/cometbft/abci/types"
+	tmproto "github.com/cometbft/cometbft/proto/tendermint/types"
 	sdk "github.com/cosmos/cosmos-sdk/types"
 	authtypes "github.com/cosmos/cosmos-sdk/x/auth/types"
 	banktypes "github.com/cosmos/cosmos-sdk/x/bank/types"
@@ -54,6 +56,7 @@ type c10 struct {
 	h, t   int64
 	hist   []string // op lines of the current episode (replay of a failure)
 	known  map[int]bool // accounts that have ever been a delegator (for the rewards scan)
+	prevSet bool        // a previous proposer has been recorded (BeginBlocker panics without one)
 }
 
 func c10Balance() sdk.Coins {
@@ -1197,6 +1200,65 @@ func (e *c10) episode(n int, ep int) {
 			}
 			e.pruneVotes()
 			e.allocate(v)
+		case k < 99 && rng.Intn(2) == 0:
+			// the real BeginBlocker several blocks in a row WITHOUT the EndBlocker in between (which wipes every in-window
+			// record, finding #5): vote records accumulate, validators leave and re-enter the commits, and the pruning of
+			// records that left the window decides what a returning proposer is paid
+			snap := app.DistrKeeper.GetSnapPeriod(e.ctx)
+			if !e.prevSet {
+				app.DistrKeeper.SetPreviousProposerConsAddr(e.ctx, e.consAddr(0))
+				e.op("ms prev p=0", "ok")
+				e.prevSet = true
+			}
+			away := rng.Intn(e.nVal) // this validator stays out of the commits for a while, then comes back as proposer
+			nb := 2 + rng.Intn(int(snap)+3)
+			for bI := 0; bI < nb; bI++ {
+				h, t := e.h+1, e.t+6
+				var commit []string
+				var votes []abci.VoteInfo
+				for vv := 0; vv < e.nVal; vv++ {
+					if (vv == away && bI > 0) || rng.Intn(6) == 0 {
+						continue
+					}
+					commit = append(commit, fmt.Sprint(vv))
+					votes = append(votes, abci.VoteInfo{Validator: abci.Validator{Address: e.consAddr(vv), Power: 1}, SignedLastBlock: true})
+				}
+				prop := rng.Intn(e.nVal)
+				if bI == nb-1 {
+					prop = away
+				}
+				bctx := e.ctx.WithBlockHeight(h).WithBlockTime(time.Unix(t, 0).UTC())
+				var panicked interface{}
+				func() {
+					defer func() { panicked = recover() }()
+					cc, write := bctx.CacheContext()
+					app.DistrKeeper.BeginBlocker(cc, abci.RequestBeginBlock{Header: tmproto.Header{Height: h, Time: time.Unix(t, 0).UTC(), ProposerAddress: e.consAddr(prop)}, LastCommitInfo: abci.CommitInfo{Votes: votes}})
+					write()
+				}()
+				out := "ok"
+				if panicked != nil {
+					out = "panic"
+				}
+				cs := "-"
+				if len(commit) > 0 {
+					cs = strings.Join(commit, ",")
+				}
+				e.op(fmt.Sprintf("ms begin h=%d t=%d p=%d commit=%s", h, t, prop, cs), out)
+				e.r.Count("l1-begin:" + out)
+				e.h, e.t, e.ctx = h, t, bctx
+				if panicked != nil {
+					break
+				}
+				e.obsVotes()
+				// the signing record that decides a proposer's share holds only votes inside the snapshot window
+				for _, vt := range app.DistrKeeper.GetAllValidatorVotes(e.ctx) {
+					if vt.Height+snap <= h {
+						e.r.Fail("C10/votes/record-outside-snapshot-window-kept", fmt.Sprintf("after BeginBlock of height %d (window %d) the signing record still holds a vote of height %d for %s", h, snap, vt.Height, vt.ConsAddr), e.replay())
+						break
+					}
+				}
+			}
+			e.obsAll()
 		default:
 			e.setActive(v, rng.Intn(3) > 0)
 		}
